@@ -328,3 +328,57 @@ def s_tm_verdict(ev, Tm, w, k):
     """three-valued verdict after at most k steps (the run is sticky at halting configurations)"""
     ob = OPT(BOOL); po = parts(ob); q = run_q(Tm.z, w.z, k.z)
     return SV(ob, If(q == rec_get(Tm, 'q_accept').z, po[2](z3.BoolVal(True)), If(q == rec_get(Tm, 'q_reject').z, po[2](z3.BoolVal(False)), po[1])))
+
+
+# ====================================================================== regular expressions (denotational semantics)
+# Lang is an abstract Kleene algebra of languages with a membership predicate.  The algebraic facts and the
+# take/drop unfoldings of product and star are theorems of Mathlib about `Language α` (KleeneAlgebra instance,
+# Language.mem_mul, Language.mem_kstar_iff_exists_nonempty); lean/GvcTheory/Regexp.lean states and checks them in
+# exactly this shape.  They are `assumed` on the SMT side and listed in the evidence.
+Lang = z3.DeclareSort('Lang')
+lzero, lone = z3.Const('lzero', Lang), z3.Const('lone', Lang)
+lsym = Function('lsym', Atom, Lang); lplus = Function('lplus', Lang, Lang, Lang); lcat = Function('lcat', Lang, Lang, Lang); lstar = Function('lstar', Lang, Lang)
+Lof = Function('L', Regexp, Lang)
+lmem = Function('mem', Word, Lang, BoolSort())
+rsize = Function('rsize', Regexp, Int)      # the library's regexp_size: Iteration +1, binary +2
+rnodes = Function('rnodes', Regexp, Int)    # number of nodes (termination measure)
+_X, _Y = Consts('X Y', Lang); _r, _s = Consts('r s', Regexp)
+RXd = Regexp
+axiom('regexp', 'def', 'L-zero', Lof(RXd.Zero) == lzero)
+axiom('regexp', 'def', 'L-one', Lof(RXd.One) == lone)
+axiom('regexp', 'def', 'L-sym', ForAll([_a], Lof(RXd.Sym(_a)) == lsym(_a)))
+axiom('regexp', 'def', 'L-iter', ForAll([_r], Lof(RXd.Iter(_r)) == lstar(Lof(_r))))
+axiom('regexp', 'def', 'L-sum', ForAll([_r, _s], Lof(RXd.Sum(_r, _s)) == lplus(Lof(_r), Lof(_s))))
+axiom('regexp', 'def', 'L-concat', ForAll([_r, _s], Lof(RXd.Concat(_r, _s)) == lcat(Lof(_r), Lof(_s))))
+for _n, _f in [('rsize-zero', rsize(RXd.Zero) == 0), ('rsize-one', rsize(RXd.One) == 0), ('rsize-sym', ForAll([_a], rsize(RXd.Sym(_a)) == 0)),
+               ('rsize-iter', ForAll([_r], rsize(RXd.Iter(_r)) == rsize(_r) + 1)),
+               ('rsize-sum', ForAll([_r, _s], rsize(RXd.Sum(_r, _s)) == rsize(_r) + rsize(_s) + 2)),
+               ('rsize-concat', ForAll([_r, _s], rsize(RXd.Concat(_r, _s)) == rsize(_r) + rsize(_s) + 2)),
+               ('rnodes-zero', rnodes(RXd.Zero) == 1), ('rnodes-one', rnodes(RXd.One) == 1), ('rnodes-sym', ForAll([_a], rnodes(RXd.Sym(_a)) == 1)),
+               ('rnodes-iter', ForAll([_r], rnodes(RXd.Iter(_r)) == rnodes(_r) + 1)),
+               ('rnodes-sum', ForAll([_r, _s], rnodes(RXd.Sum(_r, _s)) == rnodes(_r) + rnodes(_s) + 1)),
+               ('rnodes-concat', ForAll([_r, _s], rnodes(RXd.Concat(_r, _s)) == rnodes(_r) + rnodes(_s) + 1))]:
+    axiom('regexp', 'def', _n, _f)
+axiom('regexp', 'lemma', 'rnodes-pos', ForAll([_r], rnodes(_r) >= 1))
+axiom('regexp', 'lemma', 'rsize-nonneg', ForAll([_r], rsize(_r) >= 0))
+KA = 'assumed'
+axiom('regexp', KA, 'KA zero_add / add_zero (Mathlib: Language is an additive monoid)', ForAll([_X], And(lplus(lzero, _X) == _X, lplus(_X, lzero) == _X)))
+axiom('regexp', KA, 'KA zero_mul / mul_zero', ForAll([_X], And(lcat(lzero, _X) == lzero, lcat(_X, lzero) == lzero)))
+axiom('regexp', KA, 'KA one_mul / mul_one', ForAll([_X], And(lcat(lone, _X) == _X, lcat(_X, lone) == _X)))
+axiom('regexp', KA, 'KA kstar_zero, kstar_one, kstar_idem', And(lstar(lzero) == lone, lstar(lone) == lone, ForAll([_X], lstar(lstar(_X)) == lstar(_X))))
+axiom('regexp', KA, 'Language.not_mem_zero', ForAll([_w], Not(lmem(_w, lzero))))
+axiom('regexp', KA, 'Language.mem_one', ForAll([_w], lmem(_w, lone) == (_w == Word.nil)))
+axiom('regexp', KA, 'Language.mem_singleton (symbol)', ForAll([_w, _a], lmem(_w, lsym(_a)) == (_w == Word.snoc(Word.nil, _a))))
+axiom('regexp', KA, 'Language.mem_add', ForAll([_w, _X, _Y], lmem(_w, lplus(_X, _Y)) == Or(lmem(_w, _X), lmem(_w, _Y))))
+axiom('regexp', KA, 'Language.mem_mul as take/drop split', ForAll([_w, _X, _Y], lmem(_w, lcat(_X, _Y)) == z3.Exists([_k], And(0 <= _k, _k <= wlen(_w), lmem(take(_k, _w), _X), lmem(drop(_k, _w), _Y)))))
+axiom('regexp', KA, 'Language.mem_kstar_iff_exists_nonempty as take/drop split', ForAll([_w, _X], lmem(_w, lstar(_X)) == Or(_w == Word.nil, z3.Exists([_k], And(1 <= _k, _k <= wlen(_w), lmem(take(_k, _w), _X), lmem(drop(_k, _w), lstar(_X)))))))
+
+
+@spec('L')
+def s_L(ev, r): return SV(Ty('lang'), Lof(r.z))
+@spec('mem')
+def s_mem(ev, w, X): return SV(BOOL, lmem(w.z, X.z))
+@spec('rsize')
+def s_rsize(ev, r): return SV(INT, rsize(r.z))
+@spec('rnodes')
+def s_rnodes(ev, r): return SV(INT, rnodes(r.z))
